@@ -157,6 +157,14 @@ def run(ctx):
             src2 = "set p to pattern 'a' begin return %s end\nfind all p" % e
             cases.append({"src": src2, "texts": ["a"]})
             meta.append(("pred", e, exp[1]))
+            # the result IS a boolean: consumed as a string and as a number it must be true/false and 1/0, whatever the operands were
+            cases.append({"src": "set f to transform return '' + (%s) end\nreplace all 'a' with f" % e, "texts": ["a"]})
+            meta.append(("val", "'' + (%s)" % e, b"true" if exp[1] else b"false"))
+            if op in ("and", "or") or rng.random() < 0.2:
+                cases.append({"src": "set f to transform return 0 + (%s) end\nreplace all 'a' with f" % e, "texts": ["a"]})
+                meta.append(("val", "0 + (%s)" % e, b"1" if exp[1] else b"0"))
+                cases.append({"src": "set f to transform if (%s) == true then return 'T' end return 'F' end\nreplace all 'a' with f" % e, "texts": ["a"]})
+                meta.append(("val", "(%s) == true" % e, b"T" if exp[1] else b"F"))
         else:
             src = "set f to transform return %s end\nreplace all 'a' with f" % e
             want = to_s(exp)
